@@ -327,3 +327,41 @@ func H_C20_OpenOptions() {
 	_ = db.View(func(tx *Tx) error { _, e := tx.Get("a", []byte("k")); return e })
 	_ = db.Close()
 }
+
+// The three exported Tx methods of the sparse on-disk index (FindOnDisk, FindLeafOnDisk,
+// FindTxIDOnDisk) take a file id and a node offset from the caller. On a sparse-mode database with
+// sealed segments they are called with existing / missing file ids, node offsets on and off the node
+// grid, and present / absent keys and transaction ids.
+func H_C20_SparseCalls() {
+	vSetup()
+	defer vCleanup()
+	db, err := Open(vOptsFull(vDir(), HintBPTSparseIdxMode, FileIO, FileIO, 100, false))
+	if err != nil {
+		vFail("c20.open")
+		return
+	}
+	for i := 0; i < 5; i++ {
+		k := []byte{'k', byte('0' + i)}
+		_ = db.Update(func(tx *Tx) error { return tx.Put("a", k, []byte("v"), 0) })
+	}
+	fids := []uint64{0, 1, 7, math.MaxUint64, 1 << 63}
+	offs := []uint64{0, 1, 8, 1 << 20, math.MaxUint64, 1 << 63}
+	keys := [][]byte{[]byte("k0"), []byte("zz"), nil, {}}
+	tx, err := db.Begin(vChoose(2) == 0)
+	if err != nil {
+		return
+	}
+	vReach("c20.sparse-call")
+	fid, off := fids[vChoose(len(fids))], offs[vChoose(len(offs))]
+	key := keys[vChoose(len(keys))]
+	switch vChoose(3) {
+	case 0:
+		_, _ = tx.FindOnDisk(fid, off, key, getNewKey("a", key))
+	case 1:
+		_, _ = tx.FindLeafOnDisk(int64(fid), int64(off), key, getNewKey("a", key))
+	case 2:
+		_, _ = tx.FindTxIDOnDisk(fid, offs[vChoose(len(offs))])
+	}
+	_ = tx.Rollback()
+	_ = db.Close()
+}
